@@ -236,6 +236,159 @@ def r2_5_constants(ctx, prog, rule="R2.5"):
     exp = {(0, 2), (2, 4), (4, 8), (8, 20)}
     ctx.ob(rule, "header-ranges", wr >= exp and rd == exp, "writer ranges %s, reader ranges %s" % (sorted(wr), sorted(rd)), enc.where())
 
+AP = "stun_rs::attributes::address_port::"
+
+
+def _byte_reads(pa, base="top:buffer"):
+    """(lo, hi) byte ranges of `base` read on this path: range indexing calls and single-element reads appearing in
+    switches, comparisons, call arguments and the result"""
+    out = set()
+    for e in pa.calls:
+        a = C.expr_of(pa, e[2])
+        if re.search(r"::index$", e[1]) and a and a[0] == base and isinstance(a[1], tuple):
+            r = a[1]
+            if r[0] == "Range":
+                out.add((r[1], r[2]))
+            elif r[0] == "RangeTo":
+                out.add((0, r[1]))
+            elif r[0] == "RangeFrom":
+                out.add((r[1], None))
+            elif r[0] == "RangeInclusive::new":
+                out.add((r[1], r[2] + 1 if isinstance(r[2], int) else None))
+    txt = repr([pa.switches(), pa.guards(), [C.expr_of(pa, e[2]) for e in pa.calls], C.expr_of(pa, pa.ret)])
+    for m in re.finditer(re.escape(base) + r"\[(\d+)\]", txt):
+        out.add((int(m.group(1)), int(m.group(1)) + 1))
+    return out
+
+
+def r2_6_address_layout(ctx, prog, rule="R2.6"):
+    ctx.rule(rule, "address attributes (MAPPED-ADDRESS family, shared SocketAddr codec, also under the XOR variants): the writer "
+                   "sets byte 0 to zero, byte 1 to the family (1 / 2), bytes 2..4 to the port and 4..8 / 4..20 to the address and "
+                   "returns 8 / 20; the reader selects on byte 1 alone, reads exactly those ranges, returns the same sizes for the "
+                   "same families and never reads the reserved byte 0")
+    # writer
+    paths, info = C.explore_fn(prog, AP + "<impl stun_rs::Encode for std::net::SocketAddr>::encode", "x", [r"\{closure"])
+    ctx.fn(info["body"])
+    fam_len = {}
+    n = 0
+    for pa in paths:
+        fam = pa.choice(r"^variant\(ret:ip@")
+        if fam is None:
+            continue
+        n += 1
+        elems = {w[2][0]: w[3] for w in pa.writes if w[0] == "write-elem" and w[1] == "buffer"}
+        rng = {}
+        for e in pa.calls:
+            a = C.expr_of(pa, e[2])
+            if re.search(r"::index_mut$", e[1]) and a and a[0] == "top:buffer" and isinstance(a[1], tuple) and a[1][0] == "Range":
+                rng[(a[1][1], a[1][2])] = e[4]
+        port = [C.expr_of(pa, e[2]) for e in pa.calls if re.search(r"ByteOrder>::write_u16$", e[1])]
+        addr = [C.expr_of(pa, e[2]) for e in pa.calls if re.search(r"clone_from_slice$|copy_from_slice$", e[1])]
+        alen = 4 if fam == "V4" else 16
+        code = 1 if fam == "V4" else 2
+        ok = elems == {"[0]": 0, "[1]": code} and set(rng) == {(2, 4), (4, 4 + alen)} \
+            and len(port) == 1 and port[0][0][0][2] == ("Range", 2, 4) and port[0][1] == ("SocketAddr::port", "top:x") \
+            and len(addr) == 1 and addr[0][0][0][2] == ("Range", 4, 4 + alen) and "octets" in repr(addr[0][1]) and "SocketAddr::ip" in repr(addr[0][1])
+        r = C.expr_of(pa, pa.ret)
+        ok = ok and r == ("Result::Ok", ("address_port::encoded_size_", "top:x"))
+        fam_len[code] = 4 + alen
+        ctx.ob(rule, "writer:%s" % fam, ok, "writes bytes %s, ranges %s, port %s, returns %s" % (elems, sorted(rng), show(port[0][1]) if port else None, show(r)[:60]),
+               info["where"], replay=None if ok else pa.describe())
+    ctx.floor(rule, "writer families", n, 2)
+    paths, info = C.explore_fn(prog, AP + "encoded_size_", "x", [])
+    sizes = {pa.choice(r"^variant\(ret:ip@"): pa.ret for pa in paths}
+    ctx.ob(rule, "writer:sizes", sizes == {"V4": 8, "V6": 20}, "encoded_size_ = %s" % sizes, info["where"])
+    # reader
+    paths, info = C.explore_fn(prog, AP + "<impl stun_rs::Decode<'_> for std::net::SocketAddr>::decode", "x", [r"\{closure"])
+    ctx.fn(info["body"])
+    n = 0
+    for pa in paths:
+        r = C.expr_of(pa, pa.ret)
+        sw = pa.switches()
+        reads = _byte_reads(pa)
+        if any(lo == 0 for lo, hi in reads):
+            ctx.ob(rule, "reader:reserved-byte:%s" % (sw[-1][1] if sw else "-"), False,
+                   "the reader reads byte 0 (reserved, MUST be ignored): ranges %s, selector %s" % (sorted(reads, key=str), [show(x[0]) for x in sw]),
+                   info["where"], replay=pa.describe())
+            continue
+        if not (isinstance(r, tuple) and r[0] == "Result::Ok"):
+            continue
+        n += 1
+        fam = int(sw[0][1]) if len(sw) == 1 and sw[0][0] == "top:buffer[1]" and str(sw[0][1]).isdigit() else None
+        want = fam_len.get(fam)
+        ok = want is not None and reads == {(1, 2), (2, 4), (4, want)}
+        if ok:
+            val = r[1]
+            ok = val[0] == "tuple" and val[2] == want and val[1][0] == "SocketAddr::new" and "read_u16" in repr(val[1][2]) \
+                and repr(("Range", 2, 4)) in repr(val[1][2]) and "IpAddr::from" in repr(val[1][1])
+            cp = [C.expr_of(pa, e[2]) for e in pa.calls if re.search(r"clone_from_slice$|copy_from_slice$", e[1])]
+            ok = ok and len(cp) == 1 and cp[0][1][0][2] == ("Range", 4, want)
+        ctx.ob(rule, "reader:family=%s" % fam, ok, "selector %s, reads %s, returns %s" % ([(show(a), b) for a, b in sw], sorted(reads, key=str), show(r)[:120]),
+               info["where"], replay=None if ok else pa.describe())
+    ctx.floor(rule, "reader families", n, 2)
+
+
+UA = "stun_rs::attributes::stun::unknown_attributes::UnknownAttributes"
+
+
+def r2_7_u16_list(ctx, prog, rule="R2.7"):
+    ctx.rule(rule, "UNKNOWN-ATTRIBUTES is a list of 16-bit values: the writer emits 2 bytes per entry (size = 2 x count, entry i at "
+                   "2 x i); the reader rejects exactly the lengths that are not a multiple of 2, reads count = len / 2 entries at 2 x i")
+    paths, info = C.explore_fn(prog, "<%s as stun_rs::attributes::EncodeAttributeValue>::encode" % UA, "x", [r"\{closure"])
+    ctx.fn(info["body"])
+    k = None
+    for pa in paths:
+        r = C.expr_of(pa, pa.ret)
+        if isinstance(r, tuple) and r[0] == "Result::Ok":
+            v = r[1]
+            if isinstance(v, tuple) and v[0] == "op:Mul" and isinstance(v[2], int) and "Vec::len" in repr(v[1]):
+                k = v[2]
+            ctx.ob(rule, "writer:size", k == 2, "encode returns %s" % show(v)[:100], info["where"])
+    cl = [b for b in prog.bodies.values() if b.path.startswith("<%s as stun_rs::attributes::EncodeAttributeValue>::encode::{closure" % UA)]
+    for b in cl:
+        cps, cinfo = C.explore_fn(prog, b.path, "c", [])
+        for pa in cps:
+            ix = [C.expr_of(pa, e[2]) for e in pa.calls if re.search(r"::index_mut$", e[1])]
+            wr = [e for e in pa.calls if re.search(r"ByteOrder>::write_u16$", e[1])]
+            ok = len(ix) == 1 and len(wr) == 1 and isinstance(ix[0][1], tuple) and ix[0][1][0] == "RangeFrom" \
+                and isinstance(ix[0][1][1], tuple) and ix[0][1][1][0] == "op:Mul" and ix[0][1][1][2] == 2
+            ctx.ob(rule, "writer:stride", ok, "entry written at %s" % (show(ix[0][1])[:80] if ix else None), b.where())
+    ctx.floor(rule, "writer closures", len(cl), 1)
+    paths, info = C.explore_fn(prog, "<%s as stun_rs::attributes::DecodeAttributeValue>::decode" % UA, "x", [r"\{closure"])
+    ctx.fn(info["body"])
+    seen = {}
+    for pa in paths:
+        r = C.expr_of(pa, pa.ret)
+        okk = isinstance(r, tuple) and r[0] == "Result::Ok"
+        gs = [g for g in pa.guards() if "slice::len" in repr(g[1]) + repr(g[2])]
+        form = None
+        for op, a, b, v in gs:
+            if op in ("Ne", "Eq") and b == 0 and isinstance(a, tuple) and a[0] in ("op:BitAnd", "op:Rem") and isinstance(a[2], int):
+                modulus = a[2] + 1 if a[0] == "op:BitAnd" else a[2]
+                odd = (v == 1) if op == "Ne" else (v == 0)
+                form = (modulus, odd)
+        if form is None:
+            seen["test"] = (False, "no length granularity test on this path (guards %s)" % (gs,))
+            continue
+        modulus, odd = form
+        ok = modulus == 2 and (odd != okk)
+        if okk:
+            nx = [C.expr_of(pa, e[2]) for e in pa.calls if re.search(r"Iterator>::next$|range::.*next$", e[1])]
+            cnt_ok = any(repr(("op:Div",))[1:-2] in repr(x) and repr(x).count(", 2)") >= 1 for x in nx)
+            ix = [C.expr_of(pa, e[2]) for e in pa.calls if re.search(r"::index$", e[1])]
+            st_ok = all(isinstance(x[1], tuple) and x[1][0] == "RangeFrom" and isinstance(x[1][1], tuple) and x[1][1][0] == "op:Mul" and x[1][1][2] == 2 for x in ix)
+            ok = ok and cnt_ok and st_ok
+            why = "accepted iff len %% %d == 0; count %s; stride ok=%s" % (modulus, [show(x)[:60] for x in nx[:1]], st_ok)
+        else:
+            why = "rejected iff len %% %d != 0" % modulus
+        key = "reader:%s" % ("accept" if okk else "reject")
+        if key not in seen or not ok:
+            seen[key] = (ok, why)
+    for key, (ok, why) in sorted(seen.items()):
+        ctx.ob(rule, key, ok, why, info["where"])
+    ctx.floor(rule, "reader classes", len(seen), 2)
+
+
 
 def check(ctx, env):
     ctx.explanation = (
@@ -244,7 +397,8 @@ def check(ctx, env):
         "from MessageType::as_u16 and From<u16> in a bit-provenance domain; (R2.3) ERROR-CODE / ICMP / EVEN-PORT layouts as "
         "expression trees; (R2.4) big-endian only (who-may-call, with a positive fixture); (R2.5) RFC constants and header "
         "byte ranges writer = reader. Byte equality with an independent codec for arbitrary values, XOR-ed addresses and the "
-        "ignorable-bits clause are NOT decided.")
+        "ignorable-bits clause are NOT decided, except for the address attributes' reserved byte (R2.6) and the 16-bit list "
+        "granularity of UNKNOWN-ATTRIBUTES (R2.7).")
     ctx.assumptions = ["rustc MIR", "the IANA table typed into anchors/iana_attributes.json", "callee models of analysis/models.py"]
     n = 0
     for cfg in ("full", "agent"):
@@ -255,6 +409,9 @@ def check(ctx, env):
     r2_3_layouts(ctx, prog)
     r2_4_big_endian(ctx, prog)
     r2_5_constants(ctx, prog)
+    r2_6_address_layout(ctx, prog)
+    r2_7_u16_list(ctx, prog)
+    c01.r1_6_nested_padding(ctx, prog, rule="R2.8")      # inner padding of the nested PASSWORD-ALGORITHMS list is written where it belongs
     ctx.extra["exhaustive"] = True
     if env.tier == "thorough":
         from .. import witness
